@@ -64,7 +64,38 @@ func genEngine(o *Out, r *rand.Rand, thorough bool) {
 	for _, s := range seeds {
 		o.do(ztableLine(s))
 	}
-	junk := []string{"e2e5", "a1a1", "e1g1", "e7e8", "e7e8k", "e2e4q", "E2E4", "zzzz", "", "e2", "e2e4e5", "e2é", "😀", "h7h8Q", "A7A8r", "0000", "e2-e4"}
+	junk := []string{"e2e5", "a1a1", "e1g1", "e7e8", "e7e8k", "e2e4q", "E2E4", "zzzz", "", "e2", "e2e4e5", "e2é", "😀", "h7h8Q", "A7A8r", "0000", "e2-e4",
+		"e\u0132e\u0134", "\u0165\u0132e4", "e2e\uff34", "\U00010065\U00010032e4"} // the last four: aliases of e2e4 (same low bytes, other code points)
+	for i := range junk {
+		if strings.Contains(junk[i], "\\") {
+			if u, err := strconv.Unquote(`"` + junk[i] + `"`); err == nil {
+				junk[i] = u
+			}
+		}
+	}
+	// rejected input while a draw can be claimed (third occurrence; clock at 100): a pinned piece's moves are pseudo-legal, so
+	// they reach PushMove - and must leave everything, the pending result included, as it was
+	hx := func(items ...string) string {
+		var out []string
+		for _, it := range items {
+			k, v, _ := strings.Cut(it, ":")
+			if v != "" {
+				it = k + ":" + runesHex(v)
+			}
+			out = append(out, it)
+		}
+		return strings.Join(out, " ")
+	}
+	for _, sc := range []string{
+		hx("reset:4k3/8/8/8/1b6/8/3N4/4K2R w - - 0 1", "mv:e1f1", "mv:e8f8", "mv:f1e1", "mv:f8e8", "mv:e1f1", "mv:e8f8", "mv:f1e1", "mv:f8e8", "mv:d2f3", "mv:d2b3", "mv:zzzz", "mv:e1e2", "tb", "mv:d2e4", "mv:e1d1"),
+		hx("reset:4k3/8/8/8/1b6/8/3N4/4K2R w - - 98 70", "mv:e1f1", "mv:e8f8", "mv:d2f3", "mv:f1g1", "tb", "mv:d2c4", "mv:f1e1"),
+		hx("reset:4k3/8/8/8/8/8/8/R3K2n w Q - 0 1", "mv:a1a8", "mv:e8e7", "mv:a8h8", "mv:e7e6", "mv:h8h1", "mv:e6e5", "mv:e1e2", "mv:h1h8", "tb"),
+	} {
+		line := "engine 0 ; " + sc
+		o.do(line)
+		o.Count("engine:curated-rejected-while-drawn")
+		o.Nontrivial(line)
+	}
 	for i := 0; i < n; i++ {
 		seed := seeds[r.Intn(2)]
 		start := gameStarts[r.Intn(len(gameStarts))]
